@@ -154,10 +154,22 @@ func (m *engineImpl) ltxLast() string {
 	if l == "[]" || !strings.HasPrefix(l, "[") {
 		return "-"
 	}
+	// the newest file is the one with the highest max TXID (not the last in name order: a
+	// snapshot 1-6 sorts before 3-3)
 	parts := strings.Split(strings.TrimSuffix(strings.TrimPrefix(l, "["), "]"), " | ")
-	f := strings.Fields(parts[len(parts)-1])
-	if len(f) < 3 {
-		return "?"
+	best, bestMax := "?", int64(-1)
+	for _, part := range parts {
+		f := strings.Fields(part)
+		if len(f) < 3 {
+			return "?"
+		}
+		var a, b int64
+		if _, err := fmt.Sscanf(f[0], "%d-%d", &a, &b); err != nil {
+			return "?"
+		}
+		if b > bestMax {
+			best, bestMax = f[0]+":"+strings.TrimPrefix(f[2], "post="), b
+		}
 	}
-	return f[0] + ":" + strings.TrimPrefix(f[2], "post=")
+	return best
 }
